@@ -258,6 +258,62 @@ example : ((Space.init g0).run ops0).map (fun s => s.searchV ⟨0, 0, 0⟩ 20 (f
 example : (Simple.run {} (dropLiveAdds [] ops0)).searchV ⟨0, 0, 0⟩ 20 (fun id => id != 1) = [3, 4] := by decide
 example : (Simple.run {} ops0).search ⟨0, 0, 0⟩ 20 = [3, 4, 1] := by decide
 
+/-- **A long-lived space** (op `qn` of the correspondence run): a query reads the index and leaves nothing
+behind, so after any history every one of `n` consecutive repetitions of a query — for EVERY `n`, 65536 and
+beyond — reports a duplicate-free permutation of the accepted within-range ids of the scan, and what the
+driver prints for `qn` (`searchRepeat`: first answer, number of answers equal to it) is the single answer
+and `n`, for the zoned index and for `SimpleSpace` alike. -/
+theorem repeated_query_stable (g : Geo) (hg : g.Ok) (ops : List Op) (q : Pos) (r : Int) (v : Nat → Bool) (n : Nat) :
+    ∃ s, (Space.init g).run ops = some s ∧
+      (∀ a ∈ repeatAnswers (fun s : Space => (s, s.searchV q r v)) s n,
+          a.Perm (((Ref.run [] ops).brute q r).filter v) ∧ a.Nodup) ∧
+      (0 < n → s.searchRepeat q r v n = (s.searchV q r v, n)) ∧
+      (0 < n → (Simple.run {} ops).searchRepeat q r v n = ((Simple.run {} ops).searchV q r v, n)) := by
+  obtain ⟨s, hs, hp, hn⟩ := search_with_validator g hg ops q r v
+  refine ⟨s, hs, ?_, ?_, ?_⟩
+  · intro a ha
+    rw [repeatAnswers_readonly (fun s : Space => s.searchV q r v)] at ha
+    rw [List.eq_of_mem_replicate ha]; exact ⟨hp, hn⟩
+  · intro h
+    rw [Space.searchRepeat_eq_fast]; simp [Space.searchRepeatFast, Nat.ne_of_gt h]
+  · intro h
+    rw [Simple.searchRepeat_eq_fast]; simp [Simple.searchRepeatFast, Nat.ne_of_gt h]
+
+/-- non-vacuity: 70000 repetitions (beyond a 16-bit counter) on the sample history -/
+example : ((Space.init g0).run ops0).map (fun s => s.searchRepeat ⟨0, 0, 0⟩ 20 (fun id => id != 1) 70000) = some ([3, 4], 70000) := by
+  obtain ⟨s, hs, -, h, -⟩ := repeated_query_stable g0 (by decide) ops0 ⟨0, 0, 0⟩ 20 (fun id => id != 1) 70000
+  have h3 : ((Space.init g0).run ops0).map (fun s => s.searchV ⟨0, 0, 0⟩ 20 (fun id => id != 1)) = some [3, 4] := by decide
+  rw [hs] at h3 ⊢
+  simp only [Option.map_some, Option.some.injEq] at h3 ⊢
+  rw [h (by decide), h3]
+
+/-- **Queries through `searchers.FindPlayers`** (model `findPlayersValidate`, mirrored from findplayers.go and tied by
+the ops `unit` / `q … fp=`): after any history, in ANY scene world `w` and for any owner, the zoned query reports — once
+each — exactly the ids whose current position is within the radius and that are not the owner, are known to the
+world, alive and player avatars; `SimpleSpace` reports the same ids filtered from its own scan. -/
+theorem findplayers_reports_exactly (g : Geo) (hg : g.Ok) (ops : List Op) (q : Pos) (r : Int) (w : World) (owner : Nat) :
+    ∃ s, (Space.init g).run ops = some s ∧
+      (s.searchV q r (findPlayersValidate w owner)).Nodup ∧
+      (∀ id, id ∈ s.searchV q r (findPlayersValidate w owner) ↔
+        (id ∈ (Ref.run [] ops).brute q r ∧ id ≠ owner ∧
+          (w.info id).gone = false ∧ (w.info id).dead = false ∧ (w.info id).kind = unitAvatar)) ∧
+      (Simple.run {} ops).searchV q r (findPlayersValidate w owner) =
+        ((Ref.runS [] ops).brute q r).filter (findPlayersValidate w owner) := by
+  obtain ⟨s, hs, hp, hn⟩ := search_with_validator g hg ops q r (findPlayersValidate w owner)
+  refine ⟨s, hs, hn, ?_, simplespace_with_validator ops q r _⟩
+  intro id
+  rw [hp.mem_iff, List.mem_filter]
+  refine and_congr_right fun _ => ?_
+  unfold findPlayersValidate
+  by_cases ho : id = owner
+  · simp [ho]
+  · cases hg' : (w.info id).gone <;> cases hd : (w.info id).dead <;> simp [ho, hg', hd]
+
+/-- non-vacuity: entity 1 is the owner, 3 is dead, 4 a live avatar (default) — only 4 is reported; a monster is not -/
+example : ((Space.init g0).run ops0).map (fun s =>
+    (s.searchV ⟨0, 0, 0⟩ 20 (findPlayersValidate [(3, { dead := true })] 1),
+     s.searchV ⟨0, 0, 0⟩ 20 (findPlayersValidate [(4, { kind := 4 }), (3, { gone := true })] 9))) = some ([4], [1]) := by decide
+
 /-- **D12** (repaired by the `fix:` commit): with the pre-fix zone function a query at the
 origin with radius 10²⁰ (4·10²⁰ quarter units; `(r+30)/5 ≥ 2⁶³`) converts to `MinInt64`,
 clamps to column/row 0 and reports nothing, while both entities are within range and
